@@ -51,7 +51,7 @@ Proof. exact fresh_init. Qed.
 
 (* ---- the tie to the code: src/polyseed.c as TRANSLATED on this run (Gen/CApi.v) ---- *)
 From Coq Require Import String.
-From PS Require Import Base GFDefs PackDefs StoreDefs MiscDefs StrDefs LangDefs ApiDefs GFProofs PackProofs StoreProofs CTieBase CTieLang CTiePhrase CTieSplit CTieApi CTieDecode.
+From PS Require Import Base GFDefs PackDefs StoreDefs MiscDefs StrDefs LangDefs ApiDefs GFProofs PackProofs StoreProofs CTieBase CTieLang CTiePhrase CTiePhraseEv CTieSplit CTieApi CTieDecode CTieEncode.
 From PS.Gen Require Import Consts PrivConsts Langs.
 From PS.Gen Require CFuns.
 From PS.Gen Require CApi.
@@ -108,7 +108,7 @@ Theorem C15_code_tie_api_decode :
             CApi.polyseed_decode fuel sgn D ext (alloc_ptr st ok) CFuns.polyseed_mul2_table
               (Z.of_N (st_reserved st)) (zs str) (Z.of_N coin) lo lo0 gb gf gs gc so0 =
             Some (cevs, lo', b, f, s, c, so, status) /\
-            evs_of (st_deps st) cevs = no_idx evs /\
+            evs_of (st_deps st) cevs = evs /\
             (exists li : nat,
                out0 =
                OutStatus (Z.to_N status) (if (status =? 0)%Z then Some (st_next st) else None)
